@@ -4,7 +4,7 @@ import io
 import json
 
 from prov import Error
-from prov.serializers import Serializer
+from prov.serializers import Serializer, is_text_stream
 from prov.constants import *
 from prov.model import (
     Literal,
@@ -69,7 +69,7 @@ class ProvJSONSerializer(Serializer):
             # Right now this is a bytestream. If the object to stream to is
             # a text object is must be decoded. We assume utf-8 here which
             # should be fine for almost every case.
-            if isinstance(stream, io.TextIOBase):
+            if is_text_stream(stream):
                 stream.write(buf.read())
             else:
                 stream.write(buf.read().encode("utf-8"))
@@ -84,7 +84,7 @@ class ProvJSONSerializer(Serializer):
 
         :param stream: Input data.
         """
-        if not isinstance(stream, io.TextIOBase):
+        if not is_text_stream(stream):
             buf = io.StringIO(stream.read().decode("utf-8"))
             stream = buf
         return json.load(stream, cls=ProvJSONDecoder, **kwargs)
